@@ -466,6 +466,18 @@ def dcRequiredReach : List String :=
 def stateWritesOk (ws : List StateWrite) (reach : List String) : Bool :=
   ws.isEmpty && dcRequiredReach.all fun r => reach.contains r
 
+/-- every function of the two anchored blocks (and the tensor helpers under them) has exactly one `return`, its last
+statement: no early exit skips part of the modelled plan -/
+def dcBlockExits : List (String × Nat × Bool) :=
+  [("MRILogLikelihood.forward", 1, true), ("ConjGrad.forward", 1, true), ("ConjGrad.cg", 1, true), ("ConjGrad.B_op", 1, true),
+   ("ConjGrad._A_star_A_op", 1, true), ("ConjGrad._A_star_op", 1, true), ("_PRP", 1, true), ("_DY", 1, true), ("_BAN", 1, true),
+   ("expand_operator", 1, true), ("reduce_operator", 1, true), ("complex_multiplication", 1, true), ("conjugate", 1, true),
+   ("complex_dot_product", 1, true), ("complex_division", 1, true), ("safe_divide", 1, true)]
+
+/-- single exit everywhere, the listed functions are exactly the expected ones, and nothing operates in place -/
+def blockShapeOk (exits : List (String × Nat × Bool)) (inplace : List (String × String)) : Bool :=
+  exits.map (·.1) == dcBlockExits.map (·.1) && exits.all (fun e => e.2.1 == 1 && e.2.2) && inplace.isEmpty
+
 /-- a block *instance*: `out` is what a call answers given the instance state and the arguments, `upd` what the call
 leaves behind -/
 structure Stateful (σ : Type u) (ι : Type v) (ο : Type w) where
